@@ -27,6 +27,17 @@ Two population streams go through the *same* real `select`:
     the function says and loads to an agent equal (fingerprints of a save/load round trip) to the
     fittest agent of the OLD population; nothing is written when save_elite is off.
 
+  * "initpop": the INITIAL population.  `py2lean_pop.py` translates `create_population` (every `algo == …` branch) and
+    `EvolvableAlgorithm.population` into `lean/Gen/PopGen.lean` (members as provenance terms, loop bound and `index=`
+    as integer expressions); `Proofs/PopGenEq.lean` proves it equal to `Tournament.initialPop` (length, index =
+    position) for every branch and size.  Suite A runs the real functions with the algorithm classes replaced by
+    recorders and sentinel arguments (all 12 branches incl. GRPO, an unknown name, sizes -2..6, with / without
+    hp_config, custom networks, agent wrapper) next to an interpreter of the translated program: member count,
+    class, argument names in order, identity / value of every argument, and the generated sharing table against the
+    aliasing measured between members.  Suite B calls the real `create_population` with the real constructors of
+    all eleven algorithms (sizes 1-6, with / without hp_config and user-supplied networks): indices 0..n-1, distinct
+    objects, networks and optimizers of different members (and the user's networks) share no storage (walker).
+
 One case = ONE `TournamentSelection` object: it serves a lineage of 1-50 generations (with fresh
 scores appended, sometimes with the population re-indexed in between) and, in the "session"
 cases, afterwards one to three unrelated populations of other sizes and index ranges.  The model
@@ -68,6 +79,7 @@ import numpy as np
 import torch
 
 import common
+import py2lean_pop
 import py2lean_tourn
 from common import ROOT, Check, InfraError, ddmin
 
@@ -1136,14 +1148,548 @@ def probe_encoder_activation(chk: Check) -> None:
                     {"probe": FINDING_ACT, "net_config": nc, "cfg": [2, True, 2, 2], "seed": 11})
 
 
+# ----------------------------------------------------------------------------- initial population (create_population)
+# `py2lean_pop.description` is the program `Gen/PopGen.lean` was printed from, as plain data.  Suite A interprets it
+# next to the real `create_population` / `EvolvableAlgorithm.population` whose algorithm classes are replaced by
+# recorders (so every branch runs, GRPO included, with sentinel arguments): member count, class, argument names in
+# order, every argument's identity / value, the wrapper, the indices, and the generated sharing table against the
+# aliasing measured between members.  Suite B calls the real function with real constructors (tiny networks).
+POP_LITERAL = {"RainbowDQN": "Rainbow DQN"}          # agents.py name -> the literal create_population tests
+IP_IMMUTABLE = (int, float, str, bool, type(None))
+
+
+class _Sent:
+    """a mutable stand-in argument; deep copies are new objects of the same class carrying the same name"""
+
+    def __init__(self, name):
+        self.name = name
+
+    def __repr__(self):
+        return f"<{self.name}>"
+
+
+def ip_recorder(name: str, log: list):
+    class R:
+        def __init__(self, *a, **k):
+            self.verif_cls, self.args, self.kwargs = name, a, k
+            self.index = k.get("index", 0)            # the constructors' default
+            log.append(self)
+    R.__name__ = R.__qualname__ = name
+    return R
+
+
+def ip_wrapper(log: list):
+    def agent_wrapper(agent, *a, **k):
+        class W:
+            pass
+        w = W()
+        w.verif_cls, w.args, w.kwargs, w.agent = "<wrapper>", (agent,) + a, k, agent
+        w.index = getattr(agent, "index", None)       # AgentWrapper forwards attribute access
+        log.append(w)
+        return w
+    return agent_wrapper
+
+
+def ip_walk(d, f):
+    """apply f to every dict of the plain-data description"""
+    if isinstance(d, dict):
+        f(d)
+        for v in d.values():
+            ip_walk(v, f)
+    elif isinstance(d, list):
+        for v in d:
+            ip_walk(v, f)
+
+
+def ip_eval(d, env, ints, classes):
+    import ast as _ast
+    if "param" in d:
+        return env[d["param"]]
+    if "int" in d:
+        return eval(d["int"], {"__builtins__": {}}, dict(ints))
+    if "const" in d:
+        return _ast.literal_eval(d["const"])
+    if "get" in d:
+        return ip_eval(d["get"], env, ints, classes).get(d["key"], ip_eval(d["default"], env, ints, classes))
+    if "sub" in d:
+        return ip_eval(d["sub"], env, ints, classes)[d["key"]]
+    if "item" in d:
+        return ip_eval(d["item"], env, ints, classes)[eval(d["index"], {"__builtins__": {}}, dict(ints))]
+    if "deepcopy" in d:
+        return copy.deepcopy(ip_eval(d["deepcopy"], env, ints, classes))
+    if "copy" in d:
+        return copy.copy(ip_eval(d["copy"], env, ints, classes))
+    if "ite" in d:
+        t = ip_eval(d["ite"], env, ints, classes)
+        return ip_eval(d["then"] if (t is not None) == d["is_not"] else d["else"], env, ints, classes)
+    if "build" in d or "call" in d:
+        f = classes[d["build"]] if "build" in d else ip_eval(d["call"], env, ints, classes)
+        pos, kw = [], {}
+        for a in d["args"]:
+            v = ip_eval(a["val"], env, ints, classes)
+            if a["kind"] == "pos":
+                pos.append(v)
+            elif a["kind"] == "kw":
+                kw[a["key"]] = v
+            else:
+                kw.update(v)
+        return f(*pos, **kw)
+    raise InfraError(f"description term not understood: {d}")
+
+
+def ip_run_program(stmts, env, ints, strs, given, classes, acc=None):
+    """interpret the translated program; returns the list it builds"""
+    for st in stmts:
+        if "init" in st:
+            acc = []
+        elif "if" in st:
+            c = st["if"]
+            cond = (strs[c["eq"]] == c["literal"]) if "eq" in c else (given[c["given"]] == c["is_not"])
+            acc = ip_run_program(st["then"] if cond else st["else"], env, ints, strs, given, classes, acc)
+        elif "for" in st:
+            bounds = [eval(e, {"__builtins__": {}}, dict(ints)) for e in st["range"]]
+            for i in range(*bounds):
+                loc, ii = dict(env), dict(ints, **{st["for"]: i})
+                for b in st["body"]:
+                    if "assign" in b:
+                        loc["%" + b["assign"]] = ip_eval(ip_bind(b["val"], loc), loc, ii, classes)
+                    else:
+                        acc.append(ip_eval(ip_bind(b["append"], loc), loc, ii, classes))
+        elif "return" in st:
+            r = st["return"]
+            bounds = [eval(e, {"__builtins__": {}}, dict(ints)) for e in r["range"]]
+            return [ip_eval(r["comp"], env, dict(ints, **{r["for"]: i}), classes) for i in range(*bounds)]
+        else:
+            raise InfraError(f"description statement not understood: {st}")
+    return acc
+
+
+def ip_bind(d, loc):
+    """the description inlines bound locals (`x0`) as their terms, so nothing to substitute: identity.  Kept as the one
+    place that would change if the translator started to emit references."""
+    return d
+
+
+def ip_compare(exp, act, vdata, where: str, fresh_ids: dict, problems: list):
+    """expected object (from the interpreted description) against the recorded one, guided by the term's sharing class"""
+    sh = py2lean_pop.share_of(vdata) if isinstance(vdata, dict) else "mixed"
+    if hasattr(exp, "verif_cls") or hasattr(act, "verif_cls"):
+        if getattr(exp, "verif_cls", None) != getattr(act, "verif_cls", None):
+            problems.append(f"{where}: the source builds {getattr(act, 'verif_cls', type(act).__name__)}, the translation "
+                            f"{getattr(exp, 'verif_cls', type(exp).__name__)}")
+            return
+        if list(exp.kwargs) != list(act.kwargs) or len(exp.args) != len(act.args):
+            problems.append(f"{where}: arguments differ: source {len(act.args)} positional + {list(act.kwargs)}, "
+                            f"translation {len(exp.args)} positional + {list(exp.kwargs)}")
+            return
+        agent_d = vdata
+        while isinstance(agent_d, dict) and "ite" in agent_d:      # the arm that was taken has the same shape
+            agent_d = agent_d["then"] if "args" in agent_d["then"] and len(agent_d["then"]["args"]) and \
+                hasattr(act, "agent") else agent_d["else"]
+        args = agent_d.get("args", []) if isinstance(agent_d, dict) else []
+        pos_d = [a["val"] for a in args if a["kind"] == "pos"]
+        kw_d = {a["key"]: a["val"] for a in args if a["kind"] == "kw"}
+        star = [a["val"] for a in args if a["kind"] == "star2"]
+        for k, (e, a) in enumerate(zip(exp.args, act.args)):
+            ip_compare(e, a, pos_d[k] if k < len(pos_d) else None, f"{where}.#{k}", fresh_ids, problems)
+        for k in exp.kwargs:
+            vd = kw_d.get(k, {"sub": star[0], "key": k} if star else None)
+            ip_compare(exp.kwargs[k], act.kwargs[k], vd, f"{where}.{k}", fresh_ids, problems)
+        return
+    if sh in ("shared", "perIndex"):
+        if isinstance(exp, IP_IMMUTABLE) and isinstance(act, IP_IMMUTABLE):     # a literal default: value, not identity
+            if type(exp) is not type(act) or exp != act:
+                problems.append(f"{where}: the source passes {act!r}, the translation {exp!r}")
+        elif exp is not act:
+            problems.append(f"{where}: the source passes {act!r}, the translation says the object {exp!r} itself ({sh})")
+    elif sh == "immutable":
+        if type(exp) is not type(act) or exp != act:
+            problems.append(f"{where}: the source passes {act!r}, the translation {exp!r}")
+    else:
+        if type(exp) is not type(act) or (isinstance(exp, _Sent) and exp.name != act.name):
+            problems.append(f"{where}: the source passes {act!r}, the translation a fresh {exp!r}")
+        if not isinstance(act, IP_IMMUTABLE):
+            fresh_ids.setdefault(where.split("]", 1)[-1], []).append(id(act))
+
+
+def ip_inner(m):
+    while hasattr(m, "agent") and getattr(m, "verif_cls", "") == "<wrapper>":
+        m = m.agent
+    return m
+
+
+def ip_measured_table(members: list) -> dict:
+    """{argument: 'shared' | 'distinct' | 'immutable' | 'mixed'} measured over the recorded constructor calls"""
+    out = {}
+    inner = [ip_inner(m) for m in members]
+    for k in inner[0].kwargs:
+        vals = [m.kwargs.get(k) for m in inner]
+        if all(isinstance(v, IP_IMMUTABLE) for v in vals):
+            out[k] = "immutable"
+        elif all(v is vals[0] for v in vals):
+            out[k] = "shared"
+        elif len({id(v) for v in vals}) == len(vals):
+            out[k] = "distinct"
+        else:
+            out[k] = "mixed"
+    return out
+
+
+def ip_keys(desc_prog) -> tuple[set, set]:
+    """INIT_HP keys read with [] and with .get in the description"""
+    subs, gets = set(), set()
+
+    def f(d):
+        if "sub" in d and d["sub"] == {"param": "INIT_HP"}:
+            subs.add(d["key"])
+        if "get" in d and d["get"] == {"param": "INIT_HP"}:
+            gets.add(d["key"])
+    ip_walk(desc_prog, f)
+    return subs, gets
+
+
+def ip_build_names(desc_prog) -> list:
+    names = []
+    ip_walk(desc_prog, lambda d: names.append(d["build"]) if "build" in d and d["build"] not in names else None)
+    return names
+
+
+def ip_case_recorded(case: dict, desc: dict) -> tuple[list, list, dict]:
+    """suite A, one case: (observed lines, problems, info)"""
+    import agilerl.utils.utils as U
+    from agilerl.algorithms.core.base import EvolvableAlgorithm
+    rng = random.Random(case["seed"])
+    n, problems = case["n"], []
+    if case["fn"] == "population":
+        prog = desc["population"]["program"]
+        log_a, log_e = [], []
+        cls_a, cls_e = ip_recorder("cls", log_a), ip_recorder("cls", log_e)
+        wk = {"w": _Sent("wrapper-arg")}
+        kwargs = {"hp_config": _Sent("hp_config"), "net_config": {"k": 1}, "lr": 0.5}
+        obs, act = _Sent("obs"), _Sent("act")
+        wa, we = (ip_wrapper(log_a), ip_wrapper(log_e)) if case["wrapper"] else (None, None)
+        real = EvolvableAlgorithm.population.__func__(cls_a, n, obs, act, wrapper_cls=wa, wrapper_kwargs=wk, **kwargs)
+        env = {"cls": cls_e, "observation_space": obs, "action_space": act, "wrapper_cls": we, "wrapper_kwargs": wk,
+               "kwargs": kwargs}
+        exp = ip_run_program(prog, env, {"size": n}, {}, {"wrapper_cls": case["wrapper"]}, {})
+        table_row = None
+    else:
+        prog = desc["create_population"]["program"]
+        algo = case["algo"]
+        subs, gets = ip_keys(prog)
+        init = {k: _Sent("INIT_HP." + k) for k in subs}
+        for k in sorted(gets):
+            if rng.random() < 0.6:
+                init[k] = _Sent("INIT_HP." + k)
+        if "COSINE_lR_SCHEDULER" in init:
+            init["COSINE_lR_SCHEDULER"] = {"a": 1} if rng.random() < 0.5 else None
+        names = ip_build_names(prog)
+        missing = [c for c in names if not hasattr(U, c)]
+        if missing:
+            return [], [f"create_population names {missing}, which agilerl.utils.utils does not define"], {}
+        log_a, log_e = [], []
+        cls_a = {c: ip_recorder(c, log_a) for c in names}
+        cls_e = {c: ip_recorder(c, log_e) for c in names}
+        wa, we = (ip_wrapper(log_a), ip_wrapper(log_e)) if case["wrapper"] else (None, None)
+        args = dict(observation_space=_Sent("obs"), action_space=_Sent("act"), net_config={"k": 1}, INIT_HP=init,
+                    hp_config=_Sent("hp_config") if case["hp"] else None,
+                    actor_network=_Sent("actor") if case["nets"] else None,
+                    critic_network=_Sent("critic") if case["nets"] else None,
+                    wrapper_kwargs={"w": _Sent("wrapper-arg")}, num_envs=3, device="cpu",
+                    accelerator=[_Sent(f"acc{j}") for j in range(max(n, 0))], torch_compiler=None)
+        saved = {c: getattr(U, c) for c in names}
+        try:
+            for c in names:
+                setattr(U, c, cls_a[c])
+            real = U.create_population(algo, agent_wrapper=wa, population_size=n, **args)
+        finally:
+            for c, v in saved.items():
+                setattr(U, c, v)
+        env = dict(args, algo=algo, agent_wrapper=we, population_size=n)
+        exp = ip_run_program(prog, env, {"population_size": n}, {"algo": algo}, {}, cls_e)
+        table_row = next((r for r in desc["create_population"]["table"] if r[0] == algo), None)
+    observed = [f"members {len(real)}", "indices " + " ".join(str(getattr(m, "index", None)) for m in real)]
+    expected = [f"members {len(exp)}", "indices " + " ".join(str(getattr(m, "index", None)) for m in exp)]
+    # the description's members, for the per-argument comparison
+    member_d = ip_member_terms(prog, case)
+    fresh_ids: dict = {}
+    if len(real) == len(exp):
+        for j, (e, a) in enumerate(zip(exp, real)):
+            ip_compare(e, a, member_d, f"[{j}]", fresh_ids, problems)
+    for where, ids in fresh_ids.items():
+        if len(set(ids)) != len(ids):
+            problems.append(f"argument{where}: the translation says a fresh object per member, the source hands the "
+                            f"same object to several members")
+    # the property on what the real function returned
+    known = case["fn"] == "population" or case["algo"] in desc["create_population"]["algos"]
+    want = max(n, 0) if known else 0
+    if len(real) != want:
+        problems.append(f"{case['fn']} returned {len(real)} members for size {n}")
+    idx = [getattr(m, "index", None) for m in real]
+    if idx != list(range(len(real))):
+        problems.append(f"indices of the initial population are {idx}, not 0..{len(real) - 1}")
+    if len(set(idx)) != len(idx):
+        problems.append(f"indices of the initial population are not distinct: {idx}")
+    if len({id(m) for m in real}) != len(real) or len({id(ip_inner(m)) for m in real}) != len(real):
+        problems.append("two members of the initial population are the same object")
+    info = {}
+    if table_row is not None and len(real) >= 2:
+        measured = ip_measured_table(real)
+        info["measured"] = measured
+        for arg, sh in table_row[2]:
+            m = measured.get(arg)
+            ok = (m == "immutable" or m is None or sh == "mixed" or (sh == "shared" and m == "shared")
+                  or (sh in ("fresh", "perIndex") and m == "distinct") or sh == "immutable" and m in ("immutable",))
+            if sh == "immutable" and m not in ("immutable", None):
+                ok = False
+            if not ok:
+                problems.append(f"sharing table of {case['algo']}: argument {arg} is `{sh}` in the generated table, "
+                                f"measured `{m}` over {len(real)} members")
+    return (observed, expected), problems, info
+
+
+def ip_member_terms(prog, case):
+    """the term of the member the case's path appends / returns (first matching branch, like the if-chain)"""
+    def go(stmts):
+        for st in stmts:
+            if "if" in st:
+                c = st["if"]
+                cond = (case.get("algo") == c["literal"]) if "eq" in c else (case["wrapper"] == c["is_not"])
+                r = go(st["then"] if cond else st["else"])
+                if r is not None or cond:
+                    return r
+            elif "for" in st:
+                for b in st["body"]:
+                    if "append" in b:
+                        return b["append"]
+            elif "return" in st:
+                return st["return"]["comp"]
+        return None
+    return go(prog)
+
+
+def ip_real_args(algo: str, seed: int, custom_nets: bool):
+    """arguments of a real create_population call with the smallest legal networks"""
+    import agents as A
+    fam = "vector"
+    sp = A.spaces_for(algo, fam)
+    init = {"BATCH_SIZE": 8, "LR": 2.0 ** -10, "LR_ACTOR": 2.0 ** -12, "LR_CRITIC": 2.0 ** -9, "LEARN_STEP": 4,
+            "GAMMA": 0.875, "TAU": 2.0 ** -7, "POLICY_FREQ": 2, "GAE_LAMBDA": 0.75, "ACTION_STD_INIT": 0.5,
+            "CLIP_COEF": 0.25, "ENT_COEF": 2.0 ** -6, "VF_COEF": 0.5, "MAX_GRAD_NORM": 0.5, "TARGET_KL": None,
+            "UPDATE_EPOCHS": 2, "NUM_ATOMS": 5, "V_MIN": -2.0, "V_MAX": 2.0, "N_STEP": 3}
+    if A.is_multi_agent(algo):
+        obs, act, ids = sp
+        init["AGENT_IDS"] = ids
+    else:
+        obs, act = sp
+    nets = {}
+    if custom_nets and not A.is_multi_agent(algo):
+        donor = A.build(algo, fam, seed=seed)
+        if algo in ("DQN", "CQN", "RainbowDQN", "NeuralUCB", "NeuralTS"):
+            nets = {"actor_network": donor.actor}
+        elif algo in ("DDPG", "PPO"):
+            nets = {"actor_network": donor.actor, "critic_network": donor.critic}
+        elif algo == "TD3":
+            nets = {"actor_network": donor.actor, "critic_network": [donor.critic_1, donor.critic_2]}
+    return obs, act, A.default_net_config(algo, fam), init, nets
+
+
+def ip_case_real(case: dict) -> tuple[list, dict]:
+    """suite B, one case: the real constructors.  (problems, info)"""
+    import agents as A
+    import walker
+    from agilerl.utils.utils import create_population
+    algo, n = case["algo"], case["n"]
+    problems, info = [], {}
+    obs, act, net_config, init, nets = ip_real_args(algo, case["seed"], case["nets"])
+    hp = A.default_hp_config(algo) if case["hp"] else None
+    A.seed_all(case["seed"])
+    pop = create_population(POP_LITERAL.get(algo, algo), obs, act, None if nets else net_config, init, hp_config=hp,
+                            population_size=n, **nets)
+    if len(pop) != n:
+        problems.append(f"create_population({algo!r}, population_size={n}) returned {len(pop)} agents")
+    idx = [a.index for a in pop]
+    if idx != list(range(len(pop))):
+        problems.append(f"indices of the initial population are {idx}, not 0..{len(pop) - 1}")
+    if any(type(a).__name__ != algo for a in pop):
+        problems.append(f"create_population({algo!r}) built {sorted({type(a).__name__ for a in pop})}")
+    if len({id(a) for a in pop}) != len(pop):
+        problems.append("two members of the initial population are the same object")
+    # networks and optimizers of different members share no tensor storage, nor with user-supplied networks
+    # (constant tensors that are VIEWS of the numpy arrays of the one space object every member receives —
+    # DeterministicActor.action_low / action_high = torch.as_tensor(action_space.low) — are the shared constructor
+    # argument itself; they are reported, not judged)
+    space_ptrs = ip_space_ptrs([obs, act])
+    groups, views = {}, set()
+    for j, a in enumerate(pop):
+        g = OrderedDictFilter(walker.agent_groups(a))
+        for name, gr in g.items():
+            for c in [c for c in gr["cells"] if c[0] == "T" and c[1] in space_ptrs]:
+                views.add(gr["cells"].pop(c)[0].split("]", 1)[-1])
+        groups[j] = g
+    if views:
+        info["views_of_the_shared_space_arrays"] = sorted(views)[:6]
+    shared = sorted({(gi, gj) for (_, gi, _, gj) in walker.alias_pairs(groups)})
+    if shared:
+        problems.append(f"members of the initial population share storage: {shared[:4]}")
+    if nets:
+        import torch as _t
+        donor_cells = set()
+        for v in nets.values():
+            for m in (v if isinstance(v, list) else [v]):
+                donor_cells |= {walker.tensor_cell(t) for t in walker.module_tensors(m).values()}
+        for j, g in groups.items():
+            hit = [name for name, gr in g.items() if donor_cells & set(gr["cells"])]
+            if hit:
+                problems.append(f"member {j} trains the user-supplied network object itself: {hit[:3]}")
+    # configuration objects: identity across members, measured
+    cfgs = [a.registry.hp_config for a in pop]
+    if hp is not None and len(pop) >= 2:
+        same_cfg = all(c is cfgs[0] for c in cfgs)
+        distinct_cfg = len({id(c) for c in cfgs}) == len(cfgs)
+        entries = [[id(c.config[k]) for k in c.config] for c in cfgs]
+        same_entries = all(e == entries[0] for e in entries)
+        distinct_entries = len({x for e in entries for x in e}) == sum(len(e) for e in entries)
+        info["hp_config"] = "shared" if same_cfg and same_entries else "private" if distinct_cfg and distinct_entries \
+            else "mixed"
+        info["hp_config_is_argument"] = cfgs[0] is hp
+    return problems, info, pop, hp
+
+
+def ip_space_ptrs(spaces) -> set:
+    """data addresses of the numpy arrays held by (nested) gymnasium spaces"""
+    out, todo = set(), list(spaces)
+    while todo:
+        sp = todo.pop()
+        if isinstance(sp, (list, tuple)):
+            todo += list(sp)
+            continue
+        if hasattr(sp, "spaces"):
+            inner = sp.spaces
+            todo += list(inner.values()) if isinstance(inner, dict) else list(inner)
+        for name in ("low", "high", "nvec", "bounded_below", "bounded_above"):
+            arr = getattr(sp, name, None)
+            if isinstance(arr, np.ndarray):
+                out.add(arr.__array_interface__["data"][0])
+    return out
+
+
+def OrderedDictFilter(groups):
+    """network and optimizer groups only (constructor arguments handed on by reference — spaces, net_config — are
+    reported by the sharing table, not judged as storage sharing)"""
+    from collections import OrderedDict
+    return OrderedDict((k, v) for k, v in groups.items() if k.startswith(("net:", "opt:")))
+
+
+def initpop_cases(rng: random.Random, desc: dict | None, quick: bool) -> list:
+    cases = []
+    if desc is not None:
+        algos = desc["create_population"]["algos"]
+        sizes = list(range(0, 7))
+        for algo in algos + ["no-such-algorithm"]:
+            picks = sorted(rng.sample(sizes, 3 if quick else 7)) + ([rng.choice([-2, -1])] if rng.random() < 0.3 else [])
+            for n in picks:
+                cases.append({"suite": "A", "fn": "create_population", "algo": algo, "n": n, "hp": rng.random() < 0.7,
+                              "nets": rng.random() < 0.5, "wrapper": rng.random() < 0.5, "seed": rng.randrange(2 ** 30)})
+        for n in sizes:
+            for w in (False, True):
+                cases.append({"suite": "A", "fn": "population", "n": n, "wrapper": w, "seed": rng.randrange(2 ** 30)})
+    import agents as A
+    sizes = list(range(1, 7))
+    rng.shuffle(sizes)
+    real_algos = list(A.ALGOS)
+    rng.shuffle(real_algos)
+    for k, algo in enumerate(real_algos):
+        reps = 1 if quick else 3
+        for r in range(reps):
+            n = sizes[(k + r) % 6] if not (quick and A.is_multi_agent(algo)) else min(sizes[(k + r) % 6], 3)
+            cases.append({"suite": "B", "fn": "create_population", "algo": algo, "n": n, "hp": (k + r) % 3 != 2,
+                          "nets": (k + r) % 2 == 1 and not A.is_multi_agent(algo), "seed": rng.randrange(2 ** 30)})
+    return cases
+
+
+def run_initpop_case(case: dict, desc: dict | None):
+    """(diff: bool, problems, tags, sample)"""
+    if case["suite"] == "A":
+        if desc is None:
+            return False, [], ["initpop-untranslated"], {}
+        (obs_l, exp_l), problems, info = ip_case_recorded(case, desc)
+        table_problems = [p for p in problems if p.startswith(("sharing table", "argument", "["))]
+        oracle = [p for p in problems if p not in table_problems]
+        diff = obs_l != exp_l or bool(table_problems)
+        tags = ["initpop-recorded", f"initpop-{case['fn']}", f"initpop-size-{min(max(case['n'], 0), 6)}"]
+        return diff, oracle, tags, {"observed": obs_l, "translated": exp_l, "disagreements": table_problems[:6],
+                                     "measured_sharing": info.get("measured")}
+    problems, info, _, _ = ip_case_real(case)
+    tags = ["initpop-real", f"initpop-real-{case['algo']}", f"initpop-size-{case['n']}"]
+    tags += [f"initpop-hp_config-{info['hp_config']}"] if "hp_config" in info else []
+    tags += ["initpop-custom-networks"] if case["nets"] else []
+    return False, problems, tags, info
+
+
+def initpop_description():
+    try:
+        return py2lean_pop.description(common.REPO)
+    except py2lean_pop.Unsupported:
+        return None
+
+
+def run_initpop(chk: Check, selftest_only=None) -> tuple[int, int]:
+    """the two suites; returns (cases, disagreements)"""
+    desc = initpop_description()
+    cases = initpop_cases(chk.rng, desc, chk.tier == "quick") if selftest_only is None else selftest_only
+    corpus = []
+    for f in sorted((ROOT / "corpus" / "C05").glob("initpop-*.json")):
+        c = json.loads(f.read_text())
+        corpus.append(c.get("replay", c)["initpop"])
+    ndiff = 0
+    for case in corpus + cases:
+        try:
+            diff, problems, tags, sample = run_initpop_case(case, desc)
+        except InfraError:
+            raise
+        except Exception as ex:
+            diff, problems, tags, sample = False, [f"building the initial population raised {type(ex).__name__}: {ex}"], \
+                ["initpop-raised"], {}
+        chk.case(["initpop", case], nontrivial=case["n"] >= 2, tags=tags,
+                 sample={"kind": "initial-population", "case": case, **{k: v for k, v in sample.items() if v}})
+        if not diff and not problems:
+            continue
+        ndiff += bool(diff)
+        replay_obj = {"initpop": case, "oracle_problems": problems, "details": sample,
+                      "correspondence": "harness/c05.py (initial population) vs Gen/PopGen.lean",
+                      "theorems": ["C05_source_translation_initial_population_distinct",
+                                   "C05_source_translation_create_population_then_select_distinct"]}
+        if selftest_only is not None:
+            continue
+        if problems:
+            chk.violation("initial population: " + problems[0], replay_obj)
+        else:
+            chk.violation("the real create_population / population() and their translation (Gen/PopGen.lean) disagree: "
+                          + "; ".join(sample.get("disagreements", [])[:2] or [f"{sample.get('observed')} vs {sample.get('translated')}"])
+                          + "; the property oracle holds on this case", replay_obj, no_input=True)
+    return len(corpus) + len(cases), ndiff
+
+
 # ----------------------------------------------------------------------------- source translation
 def pre_gate(chk: Check) -> None:
     """Regenerate lean/Gen/TournGen.lean from the source text of the tree under test (before the Lean
     gate) and re-check `generated = model` (Proofs/TournGenEq.lean) and the theorems over the generated
     definitions (Props/C05.lean).  A failure is a gate problem; the suites then look for the failing input."""
+    # both generated files are imported by Props/C05.lean: bring BOTH up to date with the tree under test before the
+    # first build, so that a file left behind by a run against another tree is never blamed on the wrong translator
+    for tr, rel in ((py2lean_tourn, "Gen/TournGen.lean"), (py2lean_pop, "Gen/PopGen.lean")):
+        try:
+            tr.write_if_changed(tr.translate(common.REPO)[0], common.LEAN_DIR / rel)
+        except tr.Unsupported:
+            pass
     common.translation_gate(chk, py2lean_tourn, "Gen/TournGen.lean",
                             ["Gen.TournGen", "Proofs.TournGenEq", "Props.C05"],
                             "TournamentSelection.__init__, _tournament, _elitism, select")
+    # the initial population: create_population / EvolvableAlgorithm.population -> lean/Gen/PopGen.lean
+    common.translation_gate(chk, py2lean_pop, "Gen/PopGen.lean",
+                            ["Gen.PopGen", "Proofs.PopGenEq", "Props.C05"],
+                            "create_population, EvolvableAlgorithm.population")
 
 
 # ----------------------------------------------------------------------------- check
@@ -1152,7 +1698,7 @@ def load_corpus() -> list[dict]:
     for f in sorted((ROOT / "corpus" / "C05").glob("*.json")):
         c = json.loads(f.read_text())
         c = c.get("replay", c)
-        if "probe" in c:
+        if "probe" in c or "initpop" in c:
             continue
         c.setdefault("gens", 1)
         c["origin"] = f.name
@@ -1266,6 +1812,9 @@ def run(chk: Check) -> None:
     chk.suite("select-duck-typed-agents", count["stub"], ndiff["stub"])
     chk.suite("select-all-algorithm-families-after-acting-and-learning", count["fam"], ndiff["fam"])
     chk.suite("tournament_selection_and_mutation-wiring", count["wire"], ndiff["wire"])
+    if len(chk.violations) < 5:
+        n_ip, d_ip = run_initpop(chk)
+        chk.suite("create_population-initial-population", n_ip, d_ip)
     probe_encoder_activation(chk)
     if chk.tier == "thorough":
         selftest(chk, pool)
@@ -1418,6 +1967,37 @@ def selftest(chk: Check, pool: Pool) -> None:
     res = evaluate(chk, stub_cases[:20] + session_cases[:20] + [real_case] + fam_cases + wire_cases, pool)
     if any(p or d is not None for d, p, *_ in res):
         raise InfraError("C05 self-test: the restored implementation is flagged on the self-test cases")
+    # initial population: seeded faults in create_population (every member numbered 0 / one member short / the first
+    # member handed out twice) must be noticed by the oracle of the real-constructor suite
+    orig_cp = U.create_population
+    ip_case = {"suite": "B", "fn": "create_population", "algo": "DQN", "n": 3, "hp": True, "nets": False, "seed": 5}
+
+    def cp_all_zero(*a, **k):
+        pop = orig_cp(*a, **k)
+        for m in pop:
+            m.index = 0
+        return pop
+
+    def cp_one_short(*a, **k):
+        return orig_cp(*a, **k)[:-1]
+
+    def cp_same_object(*a, **k):
+        pop = orig_cp(*a, **k)
+        return [pop[0]] + pop[:-1]
+
+    for name, fn in (("create_population numbers every member 0", cp_all_zero),
+                     ("create_population returns one member too few", cp_one_short),
+                     ("create_population hands out one agent twice", cp_same_object)):
+        U.create_population = fn
+        try:
+            _, problems, _, _ = run_initpop_case(ip_case, None)
+        finally:
+            U.create_population = orig_cp
+        if not problems:
+            raise InfraError(f"C05 self-test: seeded fault '{name}' was not noticed by the initial-population oracle")
+        chk.notes.append(f"self-test: '{name}' noticed ({problems[0][:80]})")
+    if run_initpop_case(ip_case, None)[1]:
+        raise InfraError("C05 self-test: the restored create_population is flagged")
 
 
 # ----------------------------------------------------------------------------- replay
@@ -1429,6 +2009,16 @@ def replay(chk: Check, path: str) -> int:
         probe_encoder_activation(chk)
         print(json.dumps({"probe": FINDING_ACT, "still_fails": bool(chk.violations or chk.known_hits)}))
         return 1 if chk.violations else 0
+    if "initpop" in c:
+        diff, problems, tags, sample = run_initpop_case(c["initpop"], initpop_description())
+        print(json.dumps({"diff": diff, "oracle_problems": problems, "details": sample, "tags": tags}, indent=1, default=str))
+        if problems:
+            print(f"VIOLATION property=C05 replay={path}")
+            return 1
+        if diff:
+            print(f"VIOLATION property=C05 replay={path} no-failing-input-found")
+            return 1
+        return 0
     c.setdefault("gens", 1)
     diff, problems, tags, impl, model = evaluate(chk, [c], Pool())[0]
     print(json.dumps({"diff_at": diff, "oracle_problems": problems, "impl": impl, "model": model, "tags": tags}, indent=1))
